@@ -87,3 +87,230 @@ Fixpoint sorted_fp (l : list upd) : bool :=
 
 (* resolved at instant now: 0 < EndsAt <= now (Alert.ResolvedAt) *)
 Definition resolved_at (now : Z) (a : upd) : bool := (0 <? u_ends a) && (u_ends a <=? now).
+
+(* ====================================================================================================
+   PART 2 — the group-map machine (concurrent half of C06).
+
+   Shared state: per route a sync.Map groupFingerprint -> *aggrGroup (c_map, keyed by (route, group fingerprint));
+   the aggrGroup objects (c_heap: group id = allocation index; per group the alert map, the store's destroyed
+   flag, whether its context was cancelled, and the state of its run() goroutine g_fpc — FNotStarted means
+   running=false); aggrGroupsNum (c_num); the FIFO of published alerts (c_q).
+   g_pub is a ghost flag: the object has been stored in the map at some point.
+   Threads: W ingestion workers (c_workers), the maintenance goroutine (c_maint), one run()/flush goroutine per
+   group (g_fpc). Every constructor of wpc / mpc / fpc is "about to execute this call of a sync primitive"; one
+   schedule element executes exactly one such call plus the thread-local computation up to the next one.
+   Sequential consistency of sync.Map, sync.Mutex and atomics is assumed. sync.Map.Range is over-approximated:
+   the maintenance thread may visit ANY key at ANY time (the schedule names the key), which includes every
+   behaviour Range allows. Not modelled: Dispatcher.Stop, the start timer (the dispatcher is Running), the marker,
+   store errors other than ErrDestroyed, `el == nil` after LoadOrStore (impossible: only non-nil groups are stored). *)
+Notation gkey := (Z * Z)%type (only parsing).
+
+Inductive fpc := FNotStarted | FWait | FNotified (resolved : list upd) | FExited.
+
+Record grp := mkGrp {
+  g_key : gkey; g_alerts : gmap Z upd; g_destroyed : bool; g_cancelled : bool; g_pub : bool; g_fpc : fpc }.
+
+Inductive wpc :=
+| PLoad                                             (* el, loaded := groups.Load(fp) *)
+| PInsertLoaded (el : nat)                          (* el.insert(alert) *)
+| PLimit (el : option nat)                          (* aggrGroupsNum.Load() against the limit *)
+| PNew (el : option nat)                            (* newAggrGroup + first insert into the private group *)
+| PCas (el ag : nat) (retries : nat)                (* groups.CompareAndSwap(fp, el, ag) *)
+| PCancelOld (el ag : nat)                          (* el.cancel() after a successful swap *)
+| PLoadOrStore (ag : nat) (retries : nat)           (* groups.LoadOrStore(fp, ag) *)
+| PCount (ag : nat)                                 (* groupsLen.Add(1); aggrGroupsNum.Add(1) *)
+| PInsertExisting (el ag : nat) (retries : nat)     (* agExisting.insert(alert) *)
+| PRun (ag : nat).                                  (* runAG: ag.running.CompareAndSwap(false, true); go ag.run *)
+
+Inductive wst := WIdle | WBusy (a : upd) (k : gkey) (rest : list gkey) (pc : wpc).
+
+Inductive mpc := MIdle | MCheck (g : nat) | MStop (g : nat) | MDelete (g : nat) | MCount (g : nat).
+
+(* how a groupAlert call ended *)
+Inductive outcome :=
+| ODone (a : upd) (k : gkey) (g : nat)      (* inserted into group g (existing), or g published holding it (new) *)
+| OLimited (a : upd) (k : gkey)             (* aggrGroupLimitReached.Inc(); return *)
+| OGaveUp (a : upd) (k : gkey).             (* retries > 100: aggrGroupCreationGivenUp.Inc(); return *)
+
+Record cst := mkCst {
+  c_q : list upd; c_map : gmap gkey nat; c_heap : gmap nat grp; c_next : nat; c_num : Z;
+  c_workers : gmap nat wst; c_maint : mpc; c_log : list outcome; c_limited : nat; c_givenup : nat }.
+
+Definition c_init (ups : list upd) : cst := mkCst ups ∅ ∅ 0%nat 0 ∅ MIdle [] 0%nat 0%nat.
+
+Definition maxretry : nat := 100.
+
+Definition set_worker (w : nat) (st : wst) (s : cst) : cst :=
+  mkCst (c_q s) (c_map s) (c_heap s) (c_next s) (c_num s) (<[w := st]> (c_workers s)) (c_maint s) (c_log s)
+        (c_limited s) (c_givenup s).
+Definition set_q (q : list upd) (s : cst) : cst :=
+  mkCst q (c_map s) (c_heap s) (c_next s) (c_num s) (c_workers s) (c_maint s) (c_log s) (c_limited s) (c_givenup s).
+Definition set_map (m : gmap gkey nat) (s : cst) : cst :=
+  mkCst (c_q s) m (c_heap s) (c_next s) (c_num s) (c_workers s) (c_maint s) (c_log s) (c_limited s) (c_givenup s).
+Definition set_grp (g : nat) (G : grp) (s : cst) : cst :=
+  mkCst (c_q s) (c_map s) (<[g := G]> (c_heap s)) (c_next s) (c_num s) (c_workers s) (c_maint s) (c_log s)
+        (c_limited s) (c_givenup s).
+Definition set_next (n : nat) (s : cst) : cst :=
+  mkCst (c_q s) (c_map s) (c_heap s) n (c_num s) (c_workers s) (c_maint s) (c_log s) (c_limited s) (c_givenup s).
+Definition set_num (n : Z) (s : cst) : cst :=
+  mkCst (c_q s) (c_map s) (c_heap s) (c_next s) n (c_workers s) (c_maint s) (c_log s) (c_limited s) (c_givenup s).
+Definition set_maint (p : mpc) (s : cst) : cst :=
+  mkCst (c_q s) (c_map s) (c_heap s) (c_next s) (c_num s) (c_workers s) p (c_log s) (c_limited s) (c_givenup s).
+Definition add_log (o : outcome) (s : cst) : cst :=
+  mkCst (c_q s) (c_map s) (c_heap s) (c_next s) (c_num s) (c_workers s) (c_maint s) (o :: c_log s)
+        (match o with OLimited _ _ => S (c_limited s) | _ => c_limited s end)
+        (match o with OGaveUp _ _ => S (c_givenup s) | _ => c_givenup s end).
+
+Definition with_alerts (G : grp) (m : gmap Z upd) : grp :=
+  mkGrp (g_key G) m (g_destroyed G) (g_cancelled G) (g_pub G) (g_fpc G).
+Definition with_cancelled (G : grp) : grp :=
+  mkGrp (g_key G) (g_alerts G) (g_destroyed G) true (g_pub G) (g_fpc G).
+Definition with_pub (G : grp) : grp :=
+  mkGrp (g_key G) (g_alerts G) (g_destroyed G) (g_cancelled G) true (g_fpc G).
+Definition with_fpc (G : grp) (p : fpc) : grp :=
+  mkGrp (g_key G) (g_alerts G) (g_destroyed G) (g_cancelled G) (g_pub G) p.
+
+(* aggrGroup.insert: false iff the store is destroyed *)
+Definition try_insert (G : grp) (a : upd) : option grp :=
+  if g_destroyed G then None else Some (with_alerts G (store_set KeepNewer (g_alerts G) a)).
+
+(* the worker proceeds to the next matching route, or goes back to the channel *)
+Definition w_next (a : upd) (rest : list gkey) : wst :=
+  match rest with [] => WIdle | k :: r => WBusy a k r PLoad end.
+
+Definition publish (k : gkey) (ag : nat) (s : cst) : cst :=
+  let s1 := set_map (<[k := ag]> (c_map s)) s in
+  match c_heap s !! ag with Some G => set_grp ag (with_pub G) s1 | None => s1 end.
+
+Definition w_step (rt : Z -> list gkey) (limit : Z) (w : nat) (s : cst) : cst :=
+  match default WIdle (c_workers s !! w) with
+  | WIdle =>
+      match c_q s with
+      | [] => s
+      | a :: q => set_worker w (w_next a (rt (u_fp a))) (set_q q s)
+      end
+  | WBusy a k rest pc =>
+      let goto pc' s' := set_worker w (WBusy a k rest pc') s' in
+      let finish o s' := set_worker w (w_next a rest) (add_log o s') in
+      let retry r cont s' := if (maxretry <? S r)%nat then finish (OGaveUp a k) s' else goto (cont (S r)) s' in
+      match pc with
+      | PLoad =>
+          match c_map s !! k with
+          | Some el => goto (PInsertLoaded el) s
+          | None => goto (PLimit None) s
+          end
+      | PInsertLoaded el =>
+          match c_heap s !! el with
+          | None => s
+          | Some G => match try_insert G a with
+                      | Some G' => finish (ODone a k el) (set_grp el G' s)
+                      | None => goto (PLimit (Some el)) s
+                      end
+          end
+      | PLimit o =>
+          if (0 <? limit) && (limit <=? c_num s) then finish (OLimited a k) s else goto (PNew o) s
+      | PNew o =>
+          let ag := c_next s in
+          let G := mkGrp k {[u_fp a := a]} false false false FNotStarted in
+          goto (match o with Some el => PCas el ag 0 | None => PLoadOrStore ag 0 end)
+               (set_next (S ag) (set_grp ag G s))
+      | PCas el ag r =>
+          if bool_decide (c_map s !! k = Some el)
+          then goto (PCancelOld el ag) (add_log (ODone a k ag) (publish k ag s))
+          else retry r (PLoadOrStore ag) s
+      | PCancelOld el ag =>
+          match c_heap s !! el with
+          | Some G => goto (PRun ag) (set_grp el (with_cancelled G) s)
+          | None => goto (PRun ag) s
+          end
+      | PLoadOrStore ag r =>
+          match c_map s !! k with
+          | None => goto (PCount ag) (add_log (ODone a k ag) (publish k ag s))
+          | Some el => goto (PInsertExisting el ag r) s
+          end
+      | PCount ag => goto (PRun ag) (set_num (c_num s + 1) s)
+      | PInsertExisting el ag r =>
+          match c_heap s !! el with
+          | None => s
+          | Some G => match try_insert G a with
+                      | Some G' => finish (ODone a k el) (set_grp el G' s)
+                      | None => retry r (PCas el ag) s
+                      end
+          end
+      | PRun ag =>
+          match c_heap s !! ag with
+          | Some G => set_worker w (w_next a rest)
+                        (match g_fpc G with FNotStarted => set_grp ag (with_fpc G FWait) s | _ => s end)
+          | None => set_worker w (w_next a rest) s
+          end
+      end
+  end.
+
+(* doMaintenance; k is the key the Range callback is invoked for (only used in MIdle) *)
+Definition m_step (k : gkey) (s : cst) : cst :=
+  match c_maint s with
+  | MIdle => match c_map s !! k with Some g => set_maint (MCheck g) s | None => s end
+  | MCheck g =>
+      match c_heap s !! g with
+      | Some G => if g_destroyed G then set_maint (MStop g) s else set_maint MIdle s
+      | None => set_maint MIdle s
+      end
+  | MStop g =>                                        (* ag.stop(): cancel(); <-ag.done *)
+      match c_heap s !! g with
+      | Some G =>
+          let s' := set_grp g (with_cancelled G) s in
+          match g_fpc G with FExited => set_maint (MDelete g) s' | _ => s' end
+      | None => set_maint MIdle s
+      end
+  | MDelete g =>                                      (* groups.CompareAndDelete(ag.fingerprint(), ag) *)
+      match c_heap s !! g with
+      | Some G => if bool_decide (c_map s !! g_key G = Some g)
+                  then set_maint (MCount g) (set_map (delete (g_key G) (c_map s)) s)
+                  else set_maint MIdle s
+      | None => set_maint MIdle s
+      end
+  | MCount g => set_maint MIdle (set_num (c_num s - 1) s)
+  end.
+
+(* store.DeleteIfNotModified(resolved, destroyIfEmpty=true) *)
+Definition del_if_not_modified (m : gmap Z upd) (r : upd) : gmap Z upd :=
+  match m !! u_fp r with
+  | Some o => if u_uat o =? u_uat r then delete (u_fp r) m else m
+  | None => m
+  end.
+
+(* the run() goroutine of group g: a timer tick at instant now; ok = the notify pipeline succeeded *)
+Definition f_step (g : nat) (now : Z) (ok : bool) (s : cst) : cst :=
+  match c_heap s !! g with
+  | None => s
+  | Some G =>
+      match g_fpc G with
+      | FWait =>
+          if g_cancelled G then set_grp g (with_fpc G FExited) s
+          else if bool_decide (map_to_list (g_alerts G) = []) then s
+          else set_grp g (with_fpc G (FNotified (filter (fun a => resolved_at now a = true) (map_to_list (g_alerts G)).*2))) s
+      | FNotified res =>
+          if ok then
+            let m := foldl del_if_not_modified (g_alerts G) res in
+            let d := bool_decide (map_to_list m = []) in
+            set_grp g (mkGrp (g_key G) m (g_destroyed G || d) (g_cancelled G) (g_pub G)
+                             (if g_destroyed G || d then FExited else FWait)) s
+          else set_grp g (with_fpc G FWait) s
+      | _ => s
+      end
+  end.
+
+Inductive tid := TW (w : nat) | TM (k : gkey) | TF (g : nat) (now : Z) (ok : bool).
+
+Definition c_step (W : nat) (rt : Z -> list gkey) (limit : Z) (s : cst) (t : tid) : cst :=
+  match t with
+  | TW w => if (w <? W)%nat then w_step rt limit w s else s
+  | TM k => m_step k s
+  | TF g now ok => f_step g now ok s
+  end.
+
+Definition c_exec (W : nat) (rt : Z -> list gkey) (limit : Z) (sched : list tid) (s : cst) : cst :=
+  foldl (c_step W rt limit) s sched.
+
+(* a group that was published and whose store is not destroyed *)
+Definition live (G : grp) : bool := g_pub G && negb (g_destroyed G).
